@@ -11,7 +11,7 @@ META = {
                    'requires an empty stack (R03.3), clip arms are selected on clip_stack.last() (R03.2); R05.5 clip masks are written '
                    'full-surface/origin 0/stride width and read absolutely with stride = surface width (R02.6); R05.6 no buffer is sized from '
                    'a possibly inverted rectangle without an emptiness test or clamp.',
-    'decides': ['R05.1 push_clip_rect carries rect and mask', 'R05.2 push_clip combines masks', 'R05.3 stack discipline', 'R05.4 every draw consults the top clip',
+    'decides': ['R05.8 clip_bounds = rect of the top entry or the surface, a function of the clip stack and the surface size only', 'R05.1 push_clip_rect carries rect and mask', 'R05.2 push_clip combines masks', 'R05.3 stack discipline', 'R05.4 every draw consults the top clip',
                 'R05.5 mask layout agreement', 'R05.6 empty intersection harmless', 'R05.7 pushed rectangles stay inside the clip in force (and the surface)', 'R02.1 span bounded by clip_bounds', 'R03.2/R03.3 clip-aware blitter selection', 'R02.6 absolute clip indexing'],
     'does_not_decide': ['antialiased coverage values of clip paths (C01/C08)', 'exact pixel equality inside rectangular clips', 'order independence as pixel values'],
     'assumptions': ['euclid Box2D::intersection_unchecked/is_empty/size semantics (external, euclid 0.22.14)'],
